@@ -100,6 +100,9 @@ func TestOracleRejects(t *testing.T) {
 		{"416 for digits beyond int64", "bytes=0-99999999999999999999", obs{Status: 416, Header: hdr()}, "C20/x/number-beyond-int64/416-although-satisfiable"},
 		{"416 with upstream Content-Range", "bytes=20-", obs{Status: 416, Header: hdr("Content-Range", "bytes */12345")}, "C20/x/answered-416/stale-content-range"},
 		{"416 with upstream length", "bytes=20-", obs{Status: 416, Header: hdr(), CL: 13}, "C20/x/answered-416/416-content-length-mismatch"},
+		{"416 for a partly satisfiable set", "bytes=0-1,10-", obs{Status: 416, Header: hdr()}, "C20/x/partly-satisfiable-set/416-although-satisfiable"},
+		{"416 for an empty list element", "bytes=0-4,", obs{Status: 416, Header: hdr()}, "C20/x/empty-element/416-although-satisfiable"},
+		{"304 with content", "", obs{Status: 304, Header: hdr(), CL: 10, Body: []byte("0123456789")}, "C20/x/no-range/content-under-bodyless-status"},
 		{"416 for suffix", "bytes=-4", obs{Status: 416, Header: hdr()}, "C20/x/suffix/416-although-satisfiable"},
 		{"416 for list OWS before a suffix", "bytes=0-1, -3", obs{Status: 416, Header: hdr()}, "C20/x/list-whitespace/416-although-satisfiable"},
 		{"416 for list OWS after an open-ended spec", "bytes=5- ,\t0-1", obs{Status: 416, Header: hdr()}, "C20/x/list-whitespace/416-although-satisfiable"},
@@ -127,7 +130,6 @@ func TestOracleRejects(t *testing.T) {
 		{"bytes=-3", obs{Status: 206, Header: hdr("Content-Range", "bytes 7-9/10"), CL: 3, Body: []byte("789")}},
 		{"bytes=-3", obs{Status: 200, Header: hdr(), CL: 10, Body: content}},
 		{"bytes=10-", obs{Status: 416, Header: hdr()}},
-		{"bytes=0-1,10-", obs{Status: 416, Header: hdr()}},
 		{"bytes=0-1,10-", obs{Status: 206, Header: hdr("Content-Range", "bytes 0-1/10"), CL: 2, Body: []byte("01")}},
 		{"bytes=abc", obs{Status: 416, Header: hdr()}},
 		{"bytes =0-1", obs{Status: 416, Header: hdr()}},
